@@ -20,6 +20,25 @@ func pick[T any](r *rand.Rand, xs []T) T { return xs[r.Intn(len(xs))] }
 var amounts = []string{"0.1", "0.5", "1", "1.5", "0.25", "2", "0.01", "0.0020696", "0.00206961", "0.0021", "0", "0.1000001", "0.3333333333",
 	"0.0078125", "1.50", "10", "100", "0.00000000001", "-1", "922337204", "0.000001", "3"}
 
+// shiftUnit: the decimal literal plus d coins (d·10⁻¹⁰ ZCN), trailing zeros trimmed; "" if negative.
+func shiftUnit(lit string, d int64) string {
+	c, ok := coinsOf(lit)
+	if !ok {
+		return ""
+	}
+	c.Add(c, big.NewInt(d))
+	if c.Sign() < 0 {
+		return ""
+	}
+	s := c.String()
+	for len(s) <= 10 {
+		s = "0" + s
+	}
+	s = s[:len(s)-10] + "." + s[len(s)-10:]
+	s = strings.TrimRight(s, "0")
+	return strings.TrimSuffix(s, ".")
+}
+
 func randDec(r *rand.Rand) string {
 	k := r.Intn(11)
 	n := r.Int63n(30000000000)
@@ -41,10 +60,11 @@ func randDec(r *rand.Rand) string {
 // raise or lower limits or swap keys, registrations by non-owners, malformed inputs.
 func gen(r *rand.Rand, thorough bool, i int) []string {
 	frac := pick(r, []int{0, 100, 100, 250, 333, 500, 1, 1000})
-	funds := pick(r, []uint64{1000000000000, 1000000000000, 30000000000, 5000000000, 0})
+	funds := pick(r, []uint64{1000000000000, 1000000000000, 1000000000000, 30000000000, 30000000000, 5000000000, 0})
 	ops := []string{fmt.Sprintf("init g%d-%d %d %d", i, r.Int63(), frac, funds) + initTail}
 	na := 1 + r.Intn(nAssigners)
 	regKey := map[int]string{}
+	regInd, regTot := map[int]string{}, map[int]string{}
 	addas := func(k int) {
 		sender := "o"
 		if r.Intn(16) == 0 {
@@ -67,6 +87,7 @@ func gen(r *rand.Rand, thorough bool, i int) []string {
 		ops = append(ops, fmt.Sprintf("addas %s %d %s %s %s", sender, k, pk, ind, tot))
 		if sender == "o" && ind != "101" && tot != "10001" {
 			regKey[k] = pk
+			regInd[k], regTot[k] = ind, tot
 		}
 	}
 	for k := 0; k < na; k++ {
@@ -95,8 +116,17 @@ func gen(r *rand.Rand, thorough bool, i int) []string {
 				aTok = pick(r, []string{"x", strconv.Itoa(r.Intn(nAssigners))})
 			}
 			tok := pick(r, amounts)
-			if r.Intn(4) == 0 {
+			switch r.Intn(9) {
+			case 0, 1:
 				tok = randDec(r)
+			case 2, 3, 4:
+				tok = pick(r, []string{"0.1", "0.25", "0.01", "0.5", "0.05", "0.0021"})
+			case 5: // one coin around the assigner's individual / total limit
+				if lim := pick(r, []string{regInd[a], regTot[a]}); lim != "" {
+					if t := shiftUnit(lim, pick(r, []int64{0, 1, -1, 1, 1000})); t != "" && isDec(t) {
+						tok = t
+					}
+				}
 			}
 			var nn int64
 			switch y := r.Intn(10); {
@@ -172,6 +202,9 @@ func fixed() [][]string {
 			"free c2 0 2 0.1 1 0,1 a0 tokens 0.2", "free c2 0 2 0.1 1 0,1 a0 nonce 2", "free c2 0 2 0.1 1 0,1 a0 blobbers 1,0", "free c3 0 2 0.1 1 0,1 a0 recipient 3",
 			"free c3 0 2 0.1 1 0,1 a0 none 0", "free c2 0 2 0.1 1 0,1 a0 assigner 1", "free c2 0 2 0.1 1 0,1 a0 sigbad 0", "free c2 0 2 0.1 1 0,1 a0 nosig 0",
 			"free c2 0 2 0.1 1 0,1 a0 none 0", "free c2 1 2 0.1 1 0,1 a1 none 0", "free c2 0 2 0.1 1 0,1 a0 none 0", "addas o 0 a1 1 10", "free c2 0 2 0.1 1 0,1 a1 none 0", "free c2 0 2 0.1 2 0,1 a1 none 0"},
+		// one coin over / exactly at the individual and the total limit
+		{"init fx5 0 1000000000000" + initTail, "addas o 0 a0 1.5 2", "free c1 0 1 1.5000000001 1 0,1 a0 none 0", "free c1 0 1 1.5 1 0,1 a0 none 0",
+			"free c1 0 1 0.5000000001 2 0,1 a0 none 0", "free c1 0 1 0.5 2 0,1 a0 none 0", "free c1 0 1 0.0000000001 3 0,1 a0 none 0", "free c1 0 1 0.002 3 0,1 a0 none 0"},
 		{"init fx4 1000 1000000000000" + initTail, "addas o 0 a0 1 10", "free c2 0 2 0.5 1 0,1 a0 none 0", "raw array", "raw badmarker", "raw nomarker", "frobnicate", "free c0", "init"},
 	}
 }
